@@ -633,6 +633,38 @@ def run_mcase(case):
             else:
                 m = held[i]
                 ob = ON("read", [lval(cx, m.data), OS(m.path_as_str), oname(m.data_name)])
+        elif k == 'get':
+            _, p, d = op
+            if d[0] != 'notset':
+                vcounter = label_value(cx, d[-1], vcounter)
+
+            def th():
+                e = build_path(cx, p)
+                if d[0] == 'notset':
+                    r = get(e, doc)
+                elif d[0] == 'const':
+                    r = get(e, doc, default=d[1])
+                else:
+                    def dcall():
+                        cx.log.append(ON("callf", [OZ(d[1]), ON("null")]))
+                        return d[2]
+                    r = get(e, doc, default=dcall)
+                return ON("got", [lval(cx, r)])
+            ob = attempt("get", th)
+        elif k == 'find':
+            rs = []
+            try:
+                n = 0
+                for v in find(build_path(cx, op[1]), doc):
+                    rs.append(ON("value", [lval(cx, v)]))
+                    n += 1
+                    if n >= 200:
+                        rs.append(ON("cap"))
+                        break
+            except Exception as e:  # noqa
+                rs.append(ON("raise", [oexn(e)]))
+            cx.drain()
+            ob = ON("find", rs)
         else:
             raise ValueError(k)
         label_new(cx, doc)
@@ -824,3 +856,164 @@ def run_bcase(case):
         cx.drain()
         out.append(ON("op", [ob, strs()]))
     return ON("b", out)
+
+
+# ----------------------------------------------------------------------------- descriptor histories (C18)
+def run_dcase(case):
+    """decls: [{'name','kind','path'|None,'conv'}], inner: decls of the element class; ops through descriptors.
+    Observations are those of the equivalent plain-function history (see dcase.to_mcase), stripped."""
+    import copy
+    from treepath import Document, attr, attr_typed, attr_iter_typed, pprop, mprop
+    case = copy.deepcopy(case)
+    cx = Ctx()
+    doc = case['doc']
+    cx.label(doc)
+    vcounter = HIGH
+
+    def conv_kwargs(d):
+        if d.get('conv') == 'tag':
+            return dict(to_wrapped_value=lambda j: ('T', j), to_json_value=lambda w: w[1])
+        return {}
+
+    def wrap(d, v):
+        return ('T', v) if d.get('conv') == 'tag' else v
+
+    def unwrap(d, w):
+        return w[1] if d.get('conv') == 'tag' else w
+
+    def expr_of(d):
+        return None if d['path'] is None else _build_path(cx, d['path'])
+
+    inner_ns = {}
+    for j, d in enumerate(case['inner']):
+        inner_ns[d['name']] = attr(expr_of(d), **conv_kwargs(d))
+    Inner = type("Inner", (Document,), inner_ns)
+    ns = {}
+    for i, d in enumerate(case['decls']):
+        e = expr_of(d)
+        if d['kind'] == 'attr':
+            ns[d['name']] = attr(e, **conv_kwargs(d))
+        elif d['kind'] == 'typed':
+            ns[d['name']] = attr_typed(Inner, e)
+        elif d['kind'] == 'iter':
+            if d.get('conv') == 'tag':
+                ns[d['name']] = attr_iter_typed(tuple, e, to_wrapped_value=lambda j: ('T', j))
+            else:
+                ns[d['name']] = attr_iter_typed(Inner, e)
+    Owner = type("Owner", (Document,), ns)
+    owner = Owner(doc)
+
+    class Legacy:
+        def __init__(self, d):
+            self._d = d
+    legacy_paths = {}
+    for op in case['ops']:
+        if op[0] in ('pread', 'pwrite', 'mread'):
+            key = repr(op[1])
+            if key not in legacy_paths:
+                nm = "lp%d" % len(legacy_paths)
+                legacy_paths[key] = nm
+                e = _build_path(cx, op[1])
+                setattr(Legacy, nm, pprop(e, lambda self: self._d))
+                setattr(Legacy, "m" + nm, mprop(e, lambda self: self._d))
+    legacy = Legacy(doc)
+
+    out = [snapshot(cx, doc)]
+    keep = []
+
+    def status(tag, thunk, keep_value=False):
+        try:
+            r = thunk()
+        except BaseException as e:  # noqa
+            if isinstance(e, (KeyboardInterrupt, SystemExit, MemoryError)):
+                raise
+            cx.drain()
+            return ON(tag, [ON("raise", [oexn(e)])])
+        cx.drain()
+        return ON(tag, [r if keep_value else ON("ok")])
+
+    for op in case['ops']:
+        k = op[0]
+        keep.append(copy.copy(doc) if isinstance(doc, (list, dict)) else doc)
+        if k == 'read':
+            d = case['decls'][op[1]]
+
+            def th():
+                w = getattr(owner, d['name'])
+                v = w.data if d['kind'] == 'typed' else unwrap(d, w)
+                return ON("got", [lval(cx, v)])
+            ob = status("get", th, True)
+        elif k == 'write':
+            d = case['decls'][op[1]]
+            vcounter = label_value(cx, op[2], vcounter)
+
+            def th():
+                setattr(owner, d['name'], Inner(op[2]) if d['kind'] == 'typed' else wrap(d, op[2]))
+            ob = status("set", th)
+        elif k == 'del':
+            d = case['decls'][op[1]]
+
+            def th():
+                delattr(owner, d['name'])
+            ob = status("pop", th)
+        elif k == 'class':
+            d = case['decls'][op[1]]
+            ob = ON("skip") if getattr(Owner, d['name']) is ns[d['name']] else ON("class-access-wrong")
+        elif k in ('tread', 'twrite', 'tdel'):
+            d = case['decls'][op[1]]
+            dj = case['inner'][op[2]]
+            if k == 'twrite':
+                vcounter = label_value(cx, op[3], vcounter)
+
+            def th():
+                x = getattr(owner, d['name'])
+                if k == 'tread':
+                    return ON("got", [lval(cx, unwrap(dj, getattr(x, dj['name'])))])
+                if k == 'twrite':
+                    setattr(x, dj['name'], wrap(dj, op[3]))
+                else:
+                    delattr(x, dj['name'])
+            ob = status({'tread': 'get', 'twrite': 'set', 'tdel': 'pop'}[k], th, k == 'tread')
+        elif k == 'iread':
+            d = case['decls'][op[1]]
+            rs = []
+            try:
+                n = 0
+                for w in getattr(owner, d['name']):
+                    rs.append(ON("value", [lval(cx, w[1] if d.get('conv') == 'tag' else w.data)]))
+                    n += 1
+                    if n >= 200:
+                        rs.append(ON("cap"))
+                        break
+            except Exception as e:  # noqa
+                rs.append(ON("raise", [oexn(e)]))
+            cx.drain()
+            ob = ON("find", rs)
+        elif k == 'iwrite':
+            d = case['decls'][op[1]]
+            vcounter = label_value(cx, op[2], vcounter)
+
+            def th():
+                setattr(owner, d['name'], op[2])
+            ob = status("set", th)
+        elif k in ('pread', 'mread'):
+            nm = legacy_paths[repr(op[1])]
+
+            def th():
+                if k == 'pread':
+                    return ON("got", [lval(cx, getattr(legacy, nm))])
+                m = getattr(legacy, "m" + nm)
+                return ON("got", [lval(cx, m.data if m is not None else None)])
+            ob = status("get", th, True)
+        elif k == 'pwrite':
+            nm = legacy_paths[repr(op[1])]
+            vcounter = label_value(cx, op[2], vcounter)
+
+            def th():
+                setattr(legacy, nm, op[2])
+            ob = status("set", th)
+        else:
+            raise ValueError(k)
+        label_new(cx, doc)
+        out.append(ON("op", [ob, snapshot(cx, doc)]))
+    return ON("d", out)
